@@ -6,7 +6,11 @@
          op  = ("op" opc (val ...)) | ("nest" opc pad (op ...))
          val = ("i" v) | ("leb" #enc v) | ("blk" #lenc #bytes) | ("typed" #tenc ty #bytes)
              | ("wleb" tag #enc v) | ("w32" v)
-     ("raw" (le addr fmt) #bytes)      -> model result on arbitrary bytes *)
+     ("raw" (le addr fmt) #bytes)      -> model result on arbitrary bytes
+     ("bad" (le addr fmt) bx)          -> (wf_bad #bytes "why" model)      ill-formed expressions (Spec bexpr)
+         bx = ("opcode" (op ...) opc #rest)                  a byte that is not an operation, in opcode position
+            | ("trunc" (op ...) opc pad excess #body)        block announced [excess] bytes longer than #body
+            | ("inner" (op ...) opc pad bx #rest)            entry-value block holding an ill-formed expression *)
 From PV Require Import Base.Outcome Spec.C12Spec Model.C12Expr.
 Open Scope string_scope.
 
@@ -32,6 +36,20 @@ Fixpoint sop_of_sx (c : cfg) (s : sx) : sop :=
       let b := map (sop_of_sx c) body in
       SNest opc (uleb_pad (uleb_encode (zlen (encode_ops c b))) (Z.to_nat pad)) b
   | _ => SOp (-1) []
+  end.
+
+(* length fields are computed here from the encoded content (certified by wf_bad) *)
+Fixpoint bexpr_of_sx (c : cfg) (s : sx) : bexpr :=
+  match s with
+  | SL [SS _; SL pre; SI opc; SB rest] => BOpcode (map (sop_of_sx c) pre) opc rest
+  | SL [SS _; SL pre; SI opc; SI pad; SI excess; SB body] =>
+      let size := zlen body + excess in
+      BTrunc (map (sop_of_sx c) pre) opc (uleb_pad (uleb_encode size) (Z.to_nat pad)) size body
+  | SL [SS _; SL pre; SI opc; SI pad; inner; SB rest] =>
+      let b := bexpr_of_sx c inner in
+      BInner (map (sop_of_sx c) pre) opc
+             (uleb_pad (uleb_encode (zlen (encode_bad c b))) (Z.to_nat pad)) b rest
+  | _ => BTrunc [] (-1) [] 0 []      (* not wf_bad: a malformed request is never taken for a case *)
   end.
 
 Fixpoint sx_of_pval (p : pval) : sx :=
@@ -64,4 +82,12 @@ Definition dispatch (req : sx) : sx :=
          SB (reencode c expected) ]
   else if op =? "raw" then
     sx_res sx_of_parse (parse_expr (cfg_of_sx (nthx 1 l)) (gB (nthx 2 l)))
+  else if op =? "bad" then
+    let c := cfg_of_sx (nthx 1 l) in
+    let b := bexpr_of_sx c (nthx 2 l) in
+    let bytes := encode_bad c b in
+    SL [ sx_bool (cfg_ok c && wf_bad c b);
+         SB bytes;
+         SS (why_name (why_of b));
+         sx_res sx_of_parse (parse_expr c bytes) ]
   else sx_err "unknown-op".
